@@ -140,6 +140,7 @@ type Gen struct {
 	axioms    []*axiomText
 	usedGInv  bool
 	defers    []*ssa.Defer
+	nq        int
 }
 
 func (g *Gen) fatalf(f string, a ...interface{}) {
@@ -412,7 +413,7 @@ func (g *Gen) typeAssume(term string, t types.Type) string {
 }
 
 func sliceWF(s string) string {
-	return fmt.Sprintf("(and (<= 0 (s-off %[1]s)) (<= 0 (s-len %[1]s)) (<= (s-len %[1]s) (s-cap %[1]s)) (<= (+ (s-off %[1]s) (s-cap %[1]s)) 72057594037927936) (=> (= (s-arr %[1]s) 0) (= (s-cap %[1]s) 0)) (>= (s-arr %[1]s) 0))", s)
+	return fmt.Sprintf("(and (<= 0 (s-off %[1]s)) (<= 0 (s-len %[1]s)) (<= (s-len %[1]s) (s-cap %[1]s)) (<= (+ (s-off %[1]s) (s-cap %[1]s)) 72057594037927936) (=> (= (s-arr %[1]s) 0) (and (= (s-cap %[1]s) 0) (= (s-off %[1]s) 0))) (>= (s-arr %[1]s) 0))", s)
 }
 
 // ---------- path conditions ----------
@@ -601,7 +602,7 @@ func (g *Gen) Generate() {
 	g.entryHeap = Heap{}
 	st := &BState{heap: Heap{}, pc: "true", inv: map[string]string{}}
 	g.entryAlloc = g.heapGet(st.heap, g.allocRegion())
-	var facts []string
+	facts := []string{fmt.Sprintf("(not (select %s 0))", g.entryAlloc)}
 	for _, p := range fn.Params {
 		n := g.valName(p)
 		g.declare(n, sortOf(p.Type()))
@@ -941,7 +942,7 @@ func (g *Gen) enterLoop(li *loopInfo, st *BState, phiEntry map[*ssa.Phi]string) 
 		n := g.newVersion(r)
 		st.heap[k] = n
 		if r.Kind == "alloc" {
-			g.assume(st, fmt.Sprintf("(forall ((r Int)) (! (=> (select %s r) (select %s r)) :pattern ((select %s r))))", old, n, n))
+			g.assume(st, fmt.Sprintf("(and (not (select %s 0)) (forall ((r Int)) (! (=> (select %s r) (select %s r)) :pattern ((select %s r)))))", n, old, n, n))
 		} else if !ws[k] && (r.Kind == "field" || r.Kind == "cell" || r.Kind == "elem" || r.Kind == "mapdom" || r.Kind == "mapval" || r.Kind == "maplen") {
 			// written only on objects allocated inside the loop: everything allocated before keeps its value
 			al := g.heapGet(preHeap, g.allocRegion())
